@@ -383,16 +383,26 @@ on insert shardInfo.newTargets(s, job, lst) in updateScrapingTargets
    do gListWIdx = seqset(gListWIdx, s.newTargets, seqset(gListWIdx[s.newTargets], lst[len(lst) - 1].Hash, len(lst) - 1))
 
 pred plannedListed(s, active) = forall h in s.scraping :: (h in active ==> h in gListHashes[s.newTargets])
+// "the same cycle marks it in-transfer on the source and assigns it in normal state to the destination" (C05), as far as
+// the request sent to the shard goes: the list entry of a planned target carries the planned state and series estimate
+pred listEntry(m, h) = m[gListWJob[m][h]][gListWIdx[m][h]]
+pred listedAsPlanned(s, active) = forall h in s.scraping :: (h in active ==> (listEntry(s.newTargets, h).TargetState == s.scraping[h].TargetState
+      && listEntry(s.newTargets, h).Series == s.scraping[h].Series))
 
 contract updateScrapingTargets
   requires wfAll() && live(shards) && distinctShards(shards) && wfActive(active)
   ensures[C01] @list_contains_every_planned_discovered_target forall s in shards :: plannedListed(s, active)
+  ensures[C05] @list_entries_carry_the_planned_state forall s in shards :: listedAsPlanned(s, active)
   ensures[C01] @list_positions forall s in shards :: (s.newTargets != nil && fresh(s.newTargets) && listHashesWitnessed(s.newTargets) && (forall job, l in s.newTargets :: forall t in l :: t != nil))
   modifies shardInfo.newTargets, mapof(shardInfo.newTargets), elems(shardInfo.newTargets) at {}, target.Target.* at {}, gListHashes, gListWJob, gListWIdx
   loop 1 invariant forall j in 0..idx1 :: plannedListed(shards[j], active)
+  loop 1 invariant[C05] @list_entries_carry_the_planned_state forall j in 0..idx1 :: listedAsPlanned(shards[j], active)
   loop 1 invariant forall j in 0..idx1 :: (shards[j].newTargets != nil && fresh(shards[j].newTargets) && allocated(shards[j].newTargets) && listHashesWitnessed(shards[j].newTargets) && (forall job, l in shards[j].newTargets :: forall t in l :: t != nil && fresh(t)))
   loop 1 invariant forall a in 0..idx1 :: forall b in 0..idx1 :: a != b ==> shards[a].newTargets != shards[b].newTargets
   loop 2 invariant forall j in 0..idx1 :: plannedListed(shards[j], active)
+  loop 2 invariant[C05] @list_entries_carry_the_planned_state forall j in 0..idx1 :: listedAsPlanned(shards[j], active)
+  loop 2 invariant[C05] @list_entries_carry_the_planned_state forall h in visited2 :: ((h in s.scraping && h in active) ==> (listEntry(s.newTargets, h).TargetState == s.scraping[h].TargetState
+      && listEntry(s.newTargets, h).Series == s.scraping[h].Series))
   loop 2 invariant forall j in 0..idx1 :: (shards[j].newTargets != nil && fresh(shards[j].newTargets) && allocated(shards[j].newTargets) && listHashesWitnessed(shards[j].newTargets) && (forall job, l in shards[j].newTargets :: forall t in l :: t != nil && fresh(t)))
   loop 2 invariant forall a in 0..idx1 :: forall b in 0..idx1 :: a != b ==> shards[a].newTargets != shards[b].newTargets
   loop 2 invariant s == shards[idx1] && s.newTargets != nil && fresh(s.newTargets) && allocated(s.newTargets) && listHashesWitnessed(s.newTargets) && (forall job, l in s.newTargets :: forall t in l :: t != nil && fresh(t))
@@ -413,10 +423,14 @@ contract Coordinator.applyShardsInfo
   requires wfCoord(c) && wfAll() && live(shards) && distinctShards(shards) && (forall s in shards :: readyToApply(s))
   ensures[C08] @no_update_for_unready_or_out_of_sync untouchedRequests(shards)
   ensures[C01] @every_in_sync_shard_lists_its_planned_reported_targets forall s in shards :: (s.changeAble ==> listedAfterApply(s))
-  modifies shard.Shard.gPostTargets, shard.Shard.gPostExtra, shard.Shard.gList, shard.UpdateTargetsRequest.* at {}, gPostedKeys
+  // C05 / C08: whatever was told to a shard in this cycle is the list built from the plan (hashes, states, estimates)
+  ensures[C05] @what_a_shard_is_told_is_the_planned_list forall s in shards :: (s.shard.gLastPosted != old(s.shard.gLastPosted) ==> (s.changeAble && s.shard.gLastPosted != nil && s.shard.gLastPosted.Targets == s.newTargets))
+  modifies shard.Shard.gPostTargets, shard.Shard.gPostExtra, shard.Shard.gList, shard.Shard.gLastPosted, shard.UpdateTargetsRequest.* at {}, gPostedKeys
   loop 1 invariant[C08] @no_update_for_unready_or_out_of_sync untouchedRequests(shards)
   loop 1 invariant[C01] forall j in 0..idx1 :: (shards[j].changeAble ==> listedAfterApply(shards[j]))
   loop 1 invariant forall j in idx1..len(shards) :: (shards[j].changeAble ==> shards[j].shard.gList == shards[j].gReported)
+  loop 1 invariant[C05] @what_a_shard_is_told_is_the_planned_list forall j in 0..len(shards) :: (shards[j].shard.gLastPosted != old(shards[j].shard.gLastPosted) ==> (j < idx1 && shards[j].changeAble && shards[j].shard.gLastPosted != nil
+        && allocated(shards[j].shard.gLastPosted) && shards[j].shard.gLastPosted.Targets == shards[j].newTargets))
 
 // ---------- status bookkeeping ----------
 pred allEntriesWf(g) = forall h, st in g :: wfStatus(st)
